@@ -55,8 +55,11 @@ func checkC17(c *Ctx) {
 				continue // no tree configured: nothing to agree with
 			}
 			n++
-			if k := fl.K.Key(retValue(r, 0)); !strings.HasPrefix(k, "(hs/internal/tree.Tree).Root(") && !strings.HasPrefix(k, "(*hs/internal/tree.Tree).Root(") {
-				bad = append(bad, p.Pos(r.Pos())+" returns "+shortVal(k))
+			// (the value may be the result of a private (root, ok) helper: what it returns when ok)
+			for _, lf := range leaves(fl, retValue(r, 0), r) {
+				if k := lf.KeyIn(fl); !strings.HasPrefix(k, "(hs/internal/tree.Tree).Root(") && !strings.HasPrefix(k, "(*hs/internal/tree.Tree).Root(") {
+					bad = append(bad, p.Pos(r.Pos())+" returns "+shortVal(k))
+				}
 			}
 		}
 		// a version without the HasKauriTree test at all: every return must be the root
